@@ -432,6 +432,9 @@ def history(rec, rng, r, w):
                 try:
                     c.setTemperature(rng.uniform(300, 600))
                     c.getDimension(sorted(c.THERMAL_EXPANSION_DIMS)[0]) if c.THERMAL_EXPANSION_DIMS else None
+                    for x in c.parent:
+                        x.clearCache()  # a cached (now stale) volume of the DerivedShape must not hide a negative left-over area
+                    c.parent.clearCache()
                     c.parent.getVolume()
                     if any(x.getVolume() < 0 or x.getArea() < 0 for x in c.parent):
                         # e.g. a duct grown past the fixed outer pitch of the inter-assembly coolant: armi does not refuse it, but a
@@ -730,8 +733,23 @@ def roundtrip(rec, rng, r, cs, bp, w, kind):
                     if rng.random() < .6:
                         a_ = rng.choice(list(r.core))
                         b_ = rng.choice(list(a_))
-                        b_.setHeight(b_.getHeight() * rng.uniform(.8, 1.3))
+                        h_ = b_.getHeight()
+                        b_.setHeight(h_ * rng.uniform(.8, 1.3))
                         post.append("setHeight")
+                        try:
+                            for x_ in b_:
+                                x_.clearCache()
+                                x_.getVolume()
+                        except ValueError:
+                            # a block whose stated components fill the cell exactly (the grid plate of refTestCartesian:
+                            # 90.25 + 9.75 = 100.0 cm2, derived coolant area 0) tips to a derived volume of -1e-12 cm3 by
+                            # rounding at about one height in nine; armi then refuses to compute any volume of the block, so
+                            # there is no observable state to write or compare: take the height back (DESIGN 9.4)
+                            b_.setHeight(h_)
+                            for x_ in b_:
+                                x_.clearCache()
+                            post[-1] = "setHeight (taken back: derived volume negative by rounding)"
+                            rec.reject("post-op.setHeight-makes-volumes-uncomputable")
                     for b_ in r.core.getBlocks()[:5]:
                         b_.p.power = rng.uniform(1, 100)
                     post.append("params")
